@@ -908,7 +908,7 @@ func runStream(sc *Scenario, v Variant, stt *Stats) *Diff {
 	cl := &client{view: map[int]int{}, persisted: -1}
 	for ci, cn := range sc.Conns {
 		cn := cn
-		shape := fmt.Sprintf("conn%d/%s", ci+1, connShape(cn))
+		shape := connShape(cn)
 		mk := func(inv, act, detail string) *Diff {
 			return &Diff{Invariant: inv, Action: act, Shape: shape, Damage: cutShape(cn), Mode: modeOf(v), Detail: detail}
 		}
@@ -1087,20 +1087,26 @@ func runStream(sc *Scenario, v Variant, stt *Stats) *Diff {
 	return nil
 }
 
+// connShape is the abstract class of a connection for the signature: full
+// replay or resume, and which event kinds the server sent (as a set).
 func connShape(cn Conn) string {
 	s := "full"
 	if cn.Req >= 0 {
 		s = "resume"
 	}
-	kinds := ""
+	var seen [6]bool
 	for _, m := range cn.Wire {
-		if m.T == "header" {
-			kinds += fmt.Sprintf("%d", m.Ev.Kind)
-		} else {
-			kinds += "a"
+		if m.T == "header" && m.Ev.Kind >= 0 && m.Ev.Kind < 6 {
+			seen[m.Ev.Kind] = true
 		}
 	}
-	return s + "/" + kinds
+	kinds := ""
+	for k, b := range seen {
+		if b {
+			kinds += fmt.Sprintf("%d", k)
+		}
+	}
+	return s + "/kinds=" + kinds
 }
 
 func cutShape(cn Conn) string {
